@@ -3,11 +3,12 @@ import os, itertools
 import vlib
 from props import pyph
 
-MODULE = 'GudhiVerif.Properties.C04'
+MODULE = 'GudhiVerif.Properties.C04b'
 THEOREMS = ['ExpandProto.mem_labels_inter', 'ExpandProto.inc_inter', 'ExpandProto.expand_words', 'ExpandProto.valOf_inter', 'ExpandProto.expand_values',
-            'ExpandProto.cliqueVal_rec', 'ExpandProto.expand_values_clique']
+            'ExpandProto.cliqueVal_rec', 'ExpandProto.expand_values_clique',
+            'C04b.mem_subsetsOf', 'C04b.mem_withBlockers', 'C04b.withBlockers_unblocked', 'C04b.withBlockers_face_closed', 'C04b.withBlockers_largest']
 PARTIAL = ['C04_routes_partial: the recursive expansion model (intersection of sibling lists, depth bound) is proved to create exactly the cliques with at most d+1 vertices, each with the maximum of its vertex and edge values; '
-           'the blocker route, the incremental edge insertion (with the reported added simplices) and the Rips builders are executable specifications in the driver, compared with the code and with a Python clique enumeration']
+           'the blocker route is specified by withBlockers, proved (withBlockers_largest) to be the largest face-closed blocked-free subfamily of the clique complex; the incremental edge insertion (with the reported added simplices) and the Rips builders are executable specifications in the driver, compared with the code and with a Python clique enumeration']
 ASSUMPTIONS = ['integer weights; vertex values not above the values of their edges (a valid filtered graph)', 'blocker predicates are deterministic functions of the vertex set']
 
 
